@@ -22,7 +22,8 @@ import lattice_lib as L
 F_2PI = "ubi-to-u-and-eps-missing-2pi"
 ASSUME = [
     "inputs come from the exact lattices of C01-C03, C05, C06, C09, C13 (float images); tools receives x, laue receives x/(2pi)^w",
-    "agreement at 1e-12 relative (1e-9 for the omega solvers, whose square root amplifies rounding); integer rows exactly",
+    "agreement at 1e-12 relative (1e-9 for the omega solvers, whose square root amplifies rounding, 1e-7 for find_omega, which takes "
+    "arccos of a cosine that may be close to +-1); integer rows exactly",
     "tangent omega constructions are not used (both modules are ill-conditioned there)",
 ]
 TWO_PI = 2 * math.pi
@@ -268,7 +269,8 @@ def run(tier, seed):
         chi, wedge = c09.a2(cs["t1"]), c09.a2(cs["t2"])
         note = "(%s 2theta=%.3f chi=%.3f wedge=%.3f)" % (cs["solver"], twoth, chi, wedge)
         if cs["solver"] == "plain":
-            D.run("find_omega", [gw, twoth], tol=1e-9, note=note)
+            # find_omega takes arccos of the cosine: near omega = 0 or pi rounding differences of 1e-16 become 1e-8
+            D.run("find_omega", [gw, twoth], tol=1e-7, note=note)
         elif cs["solver"] == "general":
             D.run("find_omega_general", [gw, twoth, chi, wedge], tol=1e-9, note=note)
         elif cs["solver"] == "quart":
